@@ -164,7 +164,17 @@ func wrCopy3(a data.ND3Float64) data.ND3Float64 {
 // bisection over log/exp).  Their wrappers are instances of the same template as the other 38
 // and are NOT exercised with their own kernel (stated in DESIGN §5).
 func wrHeavy(name string) bool {
-	return name == "Sacramento" || name == "Storage" || name == "ClimateVariables"
+	if name == "ClimateVariables" {
+		// the scalar helpers of the climate kernel (40-step bisection, Goff-Gratch, Magnus) are
+		// replaced by arbitrary functions of their arguments: wrapper-level properties (cell
+		// independence, footprints, purity, back-end equality) hold for any such functions; the
+		// helpers themselves are the subject of C20
+		vsym.Summarise("uf:calcWetBulb")
+		vsym.Summarise("uf:calcVaporPressure")
+		vsym.Summarise("uf:calcDewPoint")
+		return false
+	}
+	return name == "Sacramento" || name == "Storage"
 }
 
 // per-cell initial states through the model's own initialiser on a single-cell model, padded
